@@ -16,6 +16,7 @@ limitations under the License.
 package dnsserver
 
 import (
+	"fmt"
 	"time"
 
 	"github.com/facebookincubator/dns/dnsrocks/db"
@@ -39,3 +40,19 @@ func (h *FBDNSDB) SetReloadTimeoutForVerif(d time.Duration) { h.dbConfig.ReloadT
 
 // DBPathForVerif reports the path a partial reload would use.
 func (h *FBDNSDB) DBPathForVerif() string { return h.dbConfig.Path }
+
+// CacheKeysForVerif lists the keys held by the response cache, oldest first (nil without cache).
+func (h *FBDNSDB) CacheKeysForVerif() []string {
+	if h.lru == nil {
+		return nil
+	}
+	var out []string
+	for _, k := range h.lru.Keys() {
+		if s, ok := k.(string); ok {
+			out = append(out, s)
+		} else {
+			out = append(out, fmt.Sprintf("%v", k))
+		}
+	}
+	return out
+}
